@@ -1489,7 +1489,9 @@ func SelectStrategy(n *nfa.NFA, re *syntax.Regexp, literals *literal.Seq, config
 	nfaSize := n.States()
 	litAnalysis := analyzeLiterals(literals, config)
 	litAnalysis.hasAnchors = hasAnchorAssertions(re)
-	litAnalysis.hasNonLineAnchors = litAnalysis.hasAnchors && hasNonLineAnchors(re)
+	// (?m)^ that does not lead every alternative needs the same verification as
+	// any other anchor: the line-anchor wrapper would reject the unanchored branches.
+	litAnalysis.hasNonLineAnchors = litAnalysis.hasAnchors && (hasNonLineAnchors(re) || !lineAnchorLeadsEveryBranch(re))
 
 	// Check for simple char_class+ patterns (HIGHEST priority for character class patterns)
 	// Patterns like [\w]+, [a-z]+, \d+ use CharClassSearcher: 14-17x faster than BoundedBacktracker
